@@ -35,6 +35,73 @@ def positional(pat, env):
                 env.roles[p["name"]] = ("pb", i)
 
 
+def record_entry_parts(fn_body, callee_pred, all_kinds):
+    """{key kind: set of entry parts ('key' = the key's expression, 'value' = entry.value) handed to callee} inside the Record
+    handling of a function; None when a condition on the key kind is not understood"""
+    MARK = "ast::RecordKey::"
+    out = {k: set() for k in all_kinds}
+    known = True
+    seen = 0
+    for n, e, g in scope.sites(fn_body, callee_pred, S.Env()):
+        in_record = any(gg[0] == "arm" and any(v.endswith("ast::Expr::Record") for v in H.pat_variants(gg[1]["pat"])) for gg in g)
+        if not in_record:
+            continue
+        arg = n["args"][0] if n.get("args") else None
+        if arg is None:
+            continue
+        part = None
+        if any(H.kind(x) == "Field" and x["name"] == "value" for x in H.walk(arg)):
+            part = "value"
+        else:
+            l = None
+            for x in H.walk(arg):
+                if H.kind(x) == "Path" and x["res"].get("local") is not None:
+                    l = x["res"]["local"]
+            for gg in g:
+                if gg[0] == "arm" and l is not None and l in H.pat_binds(gg[1]["pat"]) and any(MARK in v for v in H.pat_variants(gg[1]["pat"])):
+                    part = "key"
+        if part is None:
+            continue
+        kinds = set(all_kinds)
+        for gg in g:
+            if gg[0] == "arm":
+                vs = {H.last(v) for v in H.pat_variants(gg[1]["pat"]) if MARK in v}
+                if vs:
+                    kinds &= vs
+                elif len(gg) > 3 and any(H.kind(x) == "Field" and x["name"] == "key" for x in H.walk(gg[3])):
+                    # a catch-all arm of a match on the key: the kinds no earlier arm names
+                    mm = gg[5] if len(gg) > 5 else None
+                    if mm is None:
+                        known = False
+                    else:
+                        named = set()
+                        for a in mm["arms"]:
+                            if a is gg[1]:
+                                break
+                            named |= {H.last(v) for v in H.pat_variants(a["pat"]) if MARK in v}
+                        kinds -= named
+            elif gg[0] == "if":
+                c = H.strip(gg[1])
+                neg = False
+                while H.kind(c) == "Unary" and c.get("op") == "Not":
+                    neg = not neg
+                    c = H.strip(c["e"])
+                if not any(H.kind(x) == "Field" and x["name"] == "key" for x in H.walk(c)):
+                    continue
+                if H.kind(c) == "Match" and len(c["arms"]) == 2:
+                    yes = [a for a in c["arms"] if H.strip(a["body"]).get("v") in (True, "true")]
+                    vs = {H.last(v) for a in yes for v in H.pat_variants(a["pat"]) if MARK in v}
+                    if len(yes) == 1 and vs:
+                        pol = gg[2] != neg
+                        kinds = kinds & vs if pol else kinds - vs
+                        continue
+                known = False
+        seen += 1
+        for k in kinds:
+            out[k].add(part)
+    return (out if known and seen else None)
+
+
 class _Only:
     """a view of ctx that records only the instances whose key matches"""
 
@@ -120,6 +187,18 @@ def free_variable_rule(ctx, rid, core, only=None):
         needs = v["name"] in ("Dynamic", "Spread", "Shorthand")
         if needs:
             ctx.inst(rid, "recurses-into=RecordKey::%s" % v["name"], v["name"] in handled_k, "explicit arm for the record key kind: %s" % (v["name"] in handled_k), H.loc(hcf["body"]))
+    # record entries: per key kind the capture analysis scans the parts the evaluator evaluates
+    kinds_ = [v["name"] for v in core.types[CORE + "ast::RecordKey"]["variants"]]
+    ev_parts = record_entry_parts(hev["body"], lambda n: H.kind(n) == "Call" and n.get("def") == EVAL, kinds_)
+    cf_parts = record_entry_parts(hcf["body"], lambda n: H.kind(n) == "Call" and n.get("def") == CFV, kinds_)
+    for kd in kinds_:
+        if kd == "Shorthand":
+            continue   # a name, not an expression: covered by read-position=RecordKey::Shorthand
+        if ev_parts is None or cf_parts is None:
+            ctx.inst(rid, "record-entry[%s]#parts" % kd, None, "the conditions on the key kind were not understood (evaluator: %s, capture analysis: %s)" % (ev_parts is not None, cf_parts is not None), H.loc(hcf["body"]))
+            continue
+        ctx.inst(rid, "record-entry[%s]#parts" % kd, ev_parts[kd] <= cf_parts[kd],
+                 "for a %s entry the evaluator evaluates %s; the capture analysis scans %s" % (kd, sorted(ev_parts[kd]) or "nothing", sorted(cf_parts[kd]) or "nothing"), H.loc(hcf["body"]))
     # binder arms: `.insert` into a set that is a clone of bound, never `bound` itself
     k = 0
     for n, e, g in scope.sites(hcf["body"], lambda n: H.kind(n) == "MethodCall" and n["name"] in ("insert", "extend") and "HashSet" in n.get("recv_ty", ""), S.Env()):
